@@ -29,6 +29,24 @@ Theorem C20_complete : forall idn c oid fuel,
 Proof. exact complete_pages. Qed.
 Print Assumptions C20_complete.
 
+(* The same, end to end ON THE WIRE: request bytes -> server decode -> execute -> encode ->
+   client decode, followed while the decoded more-follows is 0xFF.  The decoded objects of the
+   successive responses, concatenated, are exactly the expected objects. *)
+Theorem C20_complete_wire : forall idn c oid fuel,
+  fits idn -> stream_code c -> start_ok idn c oid = true ->
+  (length (expected idn c oid) < fuel)%nat ->
+  exists rs, chain code idn c oid fuel = (rs, ChainDone)
+             /\ flat_map (fun r => info_objects (rs_info r)) rs = expected idn c oid.
+Proof. exact complete_wire. Qed.
+Print Assumptions C20_complete_wire.
+
+(* the client-decoder leg: decode (encode page) = page, whenever the page's ids are distinct *)
+Theorem C20_decode_encode : forall p b,
+  NoDup (map fst (pg_objs p)) -> encode_page code p = Ok b ->
+  decode_reply code (Z.to_N (c_fc code) :: b) = DOk (RResp (response_of_page p)).
+Proof. exact decode_encode. Qed.
+Print Assumptions C20_decode_encode.
+
 (* individual access (read code 4) returns the single requested object, in one page *)
 Theorem C20_individual : forall idn oid fuel,
   0 <= oid <= 255 -> blen (idn oid) <= 244 -> (0 < fuel)%nat ->
